@@ -116,4 +116,63 @@ theorem casmMeta_roundtrip (m : CasmMeta) (hd : m.declaredAt < 18446744073709551
       rw [e1, e2, e3, fromBE_be8 d hd]
       simp [ld, h2, hh, ht]
 
+
+
+/-- The hand-written header of `felt.Slice` is the canonical CBOR array head, for every length that
+fits `uint32`. -/
+theorem sliceHeader_eq_head (n : Nat) (h : n < 4294967296) : sliceHeader n = head 4 n := by
+  unfold sliceHeader head
+  have hm : n % 4294967296 = n := Nat.mod_eq_of_lt h
+  simp only [hm]
+  by_cases h1 : n < 24
+  · simp [h1]
+  · by_cases h2 : n < 256
+    · have : n ≤ 255 := by omega
+      have hm2 : n % 256 = n := Nat.mod_eq_of_lt h2
+      simp [h1, h2, this, be, hm2]
+    · by_cases h3 : n < 65536
+      · have a : ¬ n ≤ 255 := by omega
+        have b : n ≤ 65535 := by omega
+        simp [h1, h2, h3, a, b]
+      · have a : ¬ n ≤ 255 := by omega
+        have b : ¬ n ≤ 65535 := by omega
+        simp [h1, h2, h3, a, b, h]
+
+/-- Beyond `uint32` the length is truncated: 2^32 felts are written under the header of an empty
+array (the encoder's buffer is sized for the real length, so the bytes that follow no longer
+match the header). -/
+theorem sliceHeader_truncates : sliceHeader 4294967296 = head 4 0 ∧ sliceHeader 4294967296 ≠ head 4 4294967296 := by
+  decide
+
+/-- The fast-path header decoder reads back what the header encoder wrote. -/
+theorem decSliceHeader_sliceHeader (n : Nat) (rest : Bytes) (h : n < 4294967296) :
+    decSliceHeader (sliceHeader n ++ rest) = some (n, (sliceHeader n).length) := by
+  unfold sliceHeader
+  have hm : n % 4294967296 = n := Nat.mod_eq_of_lt h
+  simp only [hm]
+  by_cases h1 : n < 24
+  · simp only [h1, if_true, List.cons_append, List.nil_append, decSliceHeader]
+    rw [u8_toNat_ofNat _ (by omega)]
+    have e1 : (128 + n) / 32 = 4 := by omega
+    have e2 : (128 + n) % 32 = n := by omega
+    simp [e1, e2, h1]
+  · by_cases h2 : n ≤ 255
+    · simp only [h1, h2, if_true, if_false, List.cons_append, List.nil_append, decSliceHeader]
+      have : (UInt8.ofNat n).toNat = n := u8_toNat_ofNat n (by omega)
+      simp [fromBE, this]
+    · by_cases h3 : n ≤ 65535
+      · simp only [h1, h2, h3, if_true, if_false, List.cons_append, decSliceHeader]
+        have hl := be_length 2 n
+        have ht := take_len_append (be 2 n) rest 2 hl
+        have hb := fromBE_be 2 n
+        simp [ht, hb, hl]
+        omega
+      · simp only [h1, h2, h3, if_false, List.cons_append, decSliceHeader]
+        have hl := be_length 4 n
+        have ht := take_len_append (be 4 n) rest 4 hl
+        have hb := fromBE_be 4 n
+        simp [ht, hb, hl]
+        omega
+
+
 end Juno.C07
